@@ -89,6 +89,12 @@ func (s *Service) HandleHeadEvent(event *apiv1.Event) {
 		// Remove old sync committee data.
 		s.syncCommitteeMessenger.RemoveHistoricDataUsedForSlotVerification(data.Slot)
 	}
+
+	// The messenger records this data for every slot whether or not inclusion is
+	// verified, so it needs to be tidied up in that case as well.
+	if !s.verifySyncCommitteeInclusion && s.syncCommitteeMessenger != nil && data.Slot == s.chainTimeService.CurrentSlot() {
+		s.syncCommitteeMessenger.RemoveHistoricDataUsedForSlotVerification(data.Slot)
+	}
 }
 
 // checkEventForReorg check data in the event against information that we already have to see if
